@@ -579,3 +579,62 @@ V("C08", "dssp-framesecondary-hoisted", "mdtraj/geometry/src/dssp.cpp", """    f
 """, "C08-R4")
 V("C08", "kabsch-hbonds-stride-wrong", "mdtraj/geometry/src/geometry.cpp", "        hbonds += n_residues*2;\n        henergies += n_residues*2;", "        hbonds += n_residues*2;\n        henergies += n_residues;", "C08-R4")
 V("C08", "twin-memset-reset", SA, "    for (int j = 0; j < n_atoms; j++) {\n        outframebuffer[j] = 0;\n    }\n", "    { float* ob = outframebuffer; for (int j = 0; j < n_atoms; j++) { ob[j] = 0; } }\n", None)
+
+# ---------------------------------------------------------------- C14
+HBP = "mdtraj/geometry/hbond.py"
+GC = "mdtraj/geometry/src/geometry.cpp"
+V("C14", "angle-cutoff-left-in-degrees", HBP, "    angle_cutoff = np.radians(angle_cutoff)\n", "", "C14-R1", "baker_hubbard")
+V("C14", "angle-criterion-less-than", HBP, "presence = np.logical_and(distances < distance_cutoff, angles > angle_cutoff)", "presence = np.logical_and(distances < distance_cutoff, angles < angle_cutoff)", "C14-R1", "baker_hubbard")
+V("C14", "freq-criterion-ge", HBP, "    mask[mask] = np.mean(presence, axis=0) > freq", "    mask[mask] = np.mean(presence, axis=0) >= freq", "C14-R1", "baker_hubbard")
+V("C14", "bh-distance-donor-acceptor", HBP, "        distance_cutoff,\n        [1, 2],\n        [0, 1, 2],", "        distance_cutoff,\n        [0, 2],\n        [0, 1, 2],", "C14-R1", "baker_hubbard")
+V("C14", "bh-angle-at-donor", HBP, "        distance_cutoff,\n        [1, 2],\n        [0, 1, 2],", "        distance_cutoff,\n        [1, 2],\n        [2, 0, 1],", "C14-R1", "baker_hubbard")
+V("C14", "wn-angle-not-converted", HBP, "    cutoffs = distance_cutoff - angle_const * (angles * 180.0 / np.pi) ** 2", "    cutoffs = distance_cutoff - angle_const * angles ** 2", "C14-R1", "wernet_nilsson")
+V("C14", "prefilter-other-cutoff", HBP, "    prevalence = np.mean(distances < distance_cutoff, axis=0)", "    prevalence = np.mean(distances < 0.2, axis=0)", "C14-R1", "_compute_bounded_geometry")
+V("C14", "acceptors-only-oxygen", HBP, '    acceptor_elements = frozenset(("O", "N"))', '    acceptor_elements = frozenset(("O",))', "C14-R2")
+V("C14", "acceptors-unfiltered", HBP, "acceptors = [a.index for a in topology.atoms if a.element.symbol in acceptor_elements and can_participate(a)]", "acceptors = [a.index for a in topology.atoms if a.element.symbol in acceptor_elements]", "C14-R2")
+V("C14", "self-bonds-kept", HBP, "    return bond_triplets[np.logical_not(self_bond_mask), :]", "    return bond_triplets", "C14-R2")
+V("C14", "coupling-literal-typo", GC, "    fvec4 coupling(-2.7888f, -2.7888f, 2.7888f, 2.7888f);", "    fvec4 coupling(-2.7788f, -2.7888f, 2.7888f, 2.7888f);", "C14-R3")
+V("C14", "coupling-signs-wrong", GC, "    fvec4 coupling(-2.7888f, -2.7888f, 2.7888f, 2.7888f);", "    fvec4 coupling(-2.7888f, 2.7888f, -2.7888f, 2.7888f);", "C14-R3")
+V("C14", "second-store-guarded-by-other-proline", GC, "                        if (e < HBOND_ENERGY_CUTOFF && !is_proline[rj])", "                        if (e < HBOND_ENERGY_CUTOFF && !is_proline[ri])", "C14-R3")
+V("C14", "energy-cutoff-minus-one", GC, "    float HBOND_ENERGY_CUTOFF = -0.5;", "    float HBOND_ENERGY_CUTOFF = -1.0;", "C14-R3")
+V("C14", "h-bond-length-0.15", GC, "                fvec4 r_h = r_n+norm_r_co*0.1f;", "                fvec4 r_h = r_n+norm_r_co*0.15f;", "C14-R3")
+V("C14", "store-energies-keeps-worst", GC, "    else if (isnan(existing_e1) || e < henergies[2*donor+1]) {", "    else if (isnan(existing_e1) || e > henergies[2*donor+1]) {", "C14-R3")
+V("C14", "sentinel-guard-removed-again", GC, "            if (pc_index < 0 || po_index < 0) {", "            if (false) {", "C14-R4")
+V("C14", "first-residue-unguarded-again", GC, "    if (!skip[0]) {\n        fvec4 r_n(xyz[3*nco_indices[0]], xyz[3*nco_indices[0]+1], xyz[3*nco_indices[0]+2], 0);\n        r_n.store(hcoords);\n    }",
+  "    {\n        fvec4 r_n(xyz[3*nco_indices[0]], xyz[3*nco_indices[0]+1], xyz[3*nco_indices[0]+2], 0);\n        r_n.store(hcoords);\n    }", "C14-R4")
+V("C14", "bends-lose-skip-guard", "mdtraj/geometry/src/dssp.cpp", "        if (chain_ids[i-2] == chain_ids[i+2] && !skip[i-2] && !skip[i] && !skip[i+2]) {", "        if (chain_ids[i-2] == chain_ids[i+2] && !skip[i-2] && !skip[i]) {", "C14-R4")
+V("C14", "twin-deg2rad", HBP, "    angle_cutoff = np.radians(angle_cutoff)\n", "    angle_cutoff = np.deg2rad(angle_cutoff)\n", None)
+V("C14", "twin-skip-continue-form", GC, "            if (skip[ri])\n                continue;", "            if (skip[ri] != 0)\n                continue;", None)
+
+# ---------------------------------------------------------------- C13
+SPY = "mdtraj/geometry/sasa.py"
+V("C13", "selected-groups-not-zeroed", SPY, "        out[:,atom_mapping[atom_indices]]=0\n", "", "C13-R2")
+V("C13", "unselected-reported-zero", SPY, "        out = np.full((xyz.shape[0], dim1), -1, dtype=np.float32)", "        out = np.full((xyz.shape[0], dim1), 0, dtype=np.float32)", "C13-R2")
+V("C13", "blockers-restricted-to-selection", SA, "            if (i == j)\n                continue;\n", "            if (i == j || atom_selection_mask[j] == 0)\n                continue;\n", "C13-R3")
+V("C13", "radii-table-mutated", SPY, "        modified_radii = deepcopy(_ATOMIC_RADII)\n", "        modified_radii = _ATOMIC_RADII\n", "C13-R4")
+V("C13", "probe-not-added", SPY, "    radii = np.array(atom_radii, np.float32) + probe_radius", "    radii = np.array(atom_radii, np.float32)", "C13-R4")
+V("C13", "area-constant-2pi", SA, "    float constant = 4.0 * M_PI / n_sphere_points;", "    float constant = 2.0 * M_PI / n_sphere_points;", "C13-R4")
+V("C13", "area-radius-not-squared", SA, "        areas[i] *= constant * (atom_radii[i])*(atom_radii[i]);", "        areas[i] *= constant * (atom_radii[i]);", "C13-R4")
+V("C13", "wrapper-swaps-mapping-and-mask", "mdtraj/geometry/src/_geometry.pyx", "         &atom_outmapping[0], &atom_selection_mask[0], out.shape[1], &out[0,0])", "         &atom_selection_mask[0], &atom_outmapping[0], out.shape[1], &out[0,0])", "C13-R4")
+V("C13", "accumulator-not-reset", SA, "    for (int j = 0; j < n_atoms; j++) {\n        outframebuffer[j] = 0;\n    }\n", "", "C13-R1")
+V("C13", "twin-mask-by-isin", SPY, "        out[:,atom_mapping[atom_indices]]=0\n", "        out[:, atom_mapping[atom_indices]] = 0\n", None)
+
+# ---------------------------------------------------------------- C15
+DCP = "mdtraj/geometry/src/dssp.cpp"
+V("C15", "case-helix5-removed", DCP, "                case SS_HELIX_5:     ss='I'; break;\n", "", "C15-R1")
+V("C15", "turn-printed-as-H", DCP, "                case SS_TURN:        ss='T'; break;", "                case SS_TURN:        ss='H'; break;", "C15-R1")
+V("C15", "translation-T-to-H", "mdtraj/geometry/dssp.py", 'str.maketrans("HGIEBTS ", "HHHEECCC")', 'str.maketrans("HGIEBTS ", "HHHEEHCC")', "C15-R1")
+V("C15", "NA-overlay-inverted", "mdtraj/geometry/dssp.py", '    array[:, np.logical_not(protein_indices)] = "NA"', '    array[:, protein_indices] = "NA"', "C15-R1")
+V("C15", "protein-mask-ignores-O", "mdtraj/geometry/hbond.py", "        is_protein.append(ca != -1 and n != -1 and c != -1 and o != -1)", "        is_protein.append(ca != -1 and n != -1 and c != -1)", "C15-R1")
+V("C15", "bends-lose-skip-i+2", DCP, "        if (chain_ids[i-2] == chain_ids[i+2] && !skip[i-2] && !skip[i] && !skip[i+2]) {", "        if (chain_ids[i-2] == chain_ids[i+2] && !skip[i-2] && !skip[i]) {", "C15-R2")
+V("C15", "skip-requires-all-missing", DCP, """        if ((nco_indices[i*3] == -1) || (nco_indices[i*3+1] == -1) ||
+             (nco_indices[i*3+2] == -1) || ca_indices[i] == -1) {
+             skip[i] = 1;""", """        if ((nco_indices[i*3] == -1) && (nco_indices[i*3+1] == -1) &&
+             (nco_indices[i*3+2] == -1) && ca_indices[i] == -1) {
+             skip[i] = 1;""", "C15-R2")
+V("C15", "bridges-ignore-skip", DCP, "            if (type == BRIDGE_NONE || skip[i] || skip[j]) {", "            if (type == BRIDGE_NONE) {", "C15-R2")
+V("C15", "turn-ignores-skip", DCP, "        if (secondary[i] == SS_LOOP && !skip[i]) {", "        if (secondary[i] == SS_LOOP) {", "C15-R2")
+V("C15", "bridge-test-loses-chain-check", DCP, "    if (a >= 0 && c < n_residues && chain_ids[a] == chain_ids[c] &&\n        d >= 0 && f < n_residues && chain_ids[d] == chain_ids[f]) {",
+  "    if (a >= 0 && c < n_residues && chain_ids[a] == chain_ids[c] &&\n        d >= 0 && f < n_residues) {", "C15-R3")
+V("C15", "helix-test-loses-chain-check", DCP, "_test_bond(i+stride, i, hbonds) && (chain_ids[i] == chain_ids[i+stride])) {", "_test_bond(i+stride, i, hbonds)) {", "C15-R3")
+V("C15", "twin-case-order", DCP, "                case SS_ALPHAHELIX:  ss='H'; break;\n                case SS_BETABRIDGE:  ss='B'; break;", "                case SS_BETABRIDGE:  ss='B'; break;\n                case SS_ALPHAHELIX:  ss='H'; break;", None)
